@@ -234,6 +234,36 @@ class Repo(object):
         node._module = mod
         return node
 
+    def callees(self, modname, fn, depth=2):
+        """[fn] + the private module-level functions (and private methods through ``self.``) it calls, transitively:
+        where a rule has to look when the code it is about was moved into a helper."""
+        mod = self.mod(modname)
+        top = {s.name: s for s in mod.tree.body if isinstance(s, FuncTypes)}
+        meths = {}
+        for c in mod.tree.body:
+            if isinstance(c, ast.ClassDef):
+                for m in c.body:
+                    if isinstance(m, FuncTypes):
+                        meths.setdefault(m.name, m)
+        out, frontier = [fn], [fn]
+        for _ in range(depth):
+            nxt = []
+            for f in frontier:
+                for n in ast.walk(f):
+                    if isinstance(n, ast.Call):
+                        g = None
+                        if isinstance(n.func, ast.Name) and n.func.id.startswith("_") and n.func.id in top:
+                            g = top[n.func.id]
+                        elif isinstance(n.func, ast.Attribute) and isinstance(n.func.value, ast.Name) \
+                                and n.func.value.id == "self" and n.func.attr.startswith("_") \
+                                and not n.func.attr.startswith("__") and n.func.attr in meths:
+                            g = meths[n.func.attr]
+                        if g is not None and all(g is not x for x in out):
+                            out.append(g)
+                            nxt.append(g)
+            frontier = nxt
+        return out
+
     def ref_assign(self, modname, target):
         """value node of the last module-level assignment to ``target`` in the confirmed snapshot, or None"""
         t = self.ref_trees.get(modname)
